@@ -320,6 +320,16 @@ func (o *Origins) isNonNilErrorAt(ev ssa.Value, r *ssa.Return) bool {
 	if isNilConst(ev) {
 		return false
 	}
+	// an error parameter of a helper read in a calling context: the argument passed there
+	if prm, ok := ev.(*ssa.Parameter); ok && o.caller != nil && o.call != nil && !o.call.Common().IsInvoke() {
+		for i, p := range o.Fn.Params {
+			if p == prm && i < len(o.call.Common().Args) {
+				if o.caller.isNonNilErrorAt(o.call.Common().Args[i], nil) {
+					return true
+				}
+			}
+		}
+	}
 	// package-level error variables initialised once with errors.New / fmt.Errorf / a struct value
 	if ld, ok := ev.(*ssa.UnOp); ok && ld.Op == token.MUL {
 		if g, ok := ld.X.(*ssa.Global); ok && o.p.globalNonNilError(g) {
@@ -343,6 +353,9 @@ func (o *Origins) isNonNilErrorAt(ev ssa.Value, r *ssa.Return) bool {
 		case "errors.New", "fmt.Errorf":
 			return true
 		}
+	}
+	if r == nil {
+		return false
 	}
 	// `if err != nil { return ..., err }`: the return is only reachable through !errnil(err)
 	ex := o.Of(ev).String()
